@@ -8,12 +8,14 @@ use std::collections::hash_map::DefaultHasher;
 use std::collections::{BTreeSet, HashSet};
 use std::hash::{Hash, Hasher};
 
-fn side<T: Serialize, E: std::fmt::Display>(r: Result<T, E>) -> Value {
+fn side<T: Serialize + std::fmt::Debug, E: std::fmt::Display>(r: Result<T, E>) -> Value {
     match r {
         Ok(v) => match conjure_serde::json::to_string(&v) {
             Ok(s) => {
                 let smile = conjure_serde::smile::to_vec(&v).ok();
-                json!({"ok": s, "smile_len": smile.map(|b| b.len())})
+                let mut dbg = format!("{v:?}");
+                dbg.truncate(200);
+                json!({"ok": s, "smile_len": smile.map(|b| b.len()), "debug": dbg})
             }
             Err(e) => json!({"ser_err": e.to_string()}),
         },
@@ -22,7 +24,7 @@ fn side<T: Serialize, E: std::fmt::Display>(r: Result<T, E>) -> Value {
 }
 
 /// C02 / C10: parse with the server and the client deserializer, re-serialise, also via Smile.
-pub fn wire_rt<T: DeserializeOwned + Serialize + PartialEq>(doc: &str) -> Value {
+pub fn wire_rt<T: DeserializeOwned + Serialize + PartialEq + std::fmt::Debug>(doc: &str) -> Value {
     let server = conjure_serde::json::server_from_str::<T>(doc);
     let client = conjure_serde::json::client_from_str::<T>(doc);
     // Smile round trip of the parsed value: re-serialised as JSON it must be the same document (values holding `any`
